@@ -83,15 +83,34 @@ Definition run_op (s : mstate) (o : op) : option mstate :=
       end
   end.
 
-Fixpoint run_steps (s : mstate) (steps : list (op * desc)) : bool :=
+(* the description is recorded after every instantiate / clone / pickle and after the last operation; a
+   mutation in between is observed through the next recorded description.  To keep the case files small a
+   recorded description is written as its difference from the previous recorded one (objects keep their
+   numbers because new roots are appended): objects replaced, objects appended, final length, roots. *)
+Inductive dsc :=
+| DFull (d : desc)
+| DDelta (n : nat) (changes : list (nat * obj)) (app : list obj) (roots : list value).
+
+Definition expand (prev : desc) (x : dsc) : desc :=
+  match x with
+  | DFull d => d
+  | DDelta n ch app r => (firstn n (fold_left (fun h c => upd h (fst c) (snd c)) ch (fst prev) ++ app), r)
+  end.
+
+Fixpoint run_steps (s : mstate) (prev : desc) (steps : list (op * option dsc)) : bool :=
   match steps with
   | [] => true
   | (o, obs) :: r =>
       match run_op s o with
       | Some s' =>
-          match describe s' with
-          | Some (d, _) => desc_eqb d obs && run_steps s' r
-          | None => false
+          match obs with
+          | None => run_steps s' prev r
+          | Some x =>
+              let obs := expand prev x in
+              match describe s' with
+              | Some (d, _) => desc_eqb d obs && run_steps s' obs r
+              | None => false
+              end
           end
       | None => false
       end
@@ -147,8 +166,9 @@ Fixpoint run_tb (t : toolbox) (ops : list tbop) : bool :=
   end.
 
 Inductive case :=
-| CRun (wf : bool) (h0 : heap) (roots : list value) (steps : list (op * desc))
-| CFresh (h : heap) (root : value) (obs : desc)     (* description made by a fresh interpreter after unpickling *)
+| CRun (wf : bool) (h0 : heap) (roots : list value) (steps : list (op * option dsc))
+| CFresh (h : heap) (root : value) (obs : option desc)   (* description made by a fresh interpreter after
+                                                          unpickling; None: it is exactly (h, [root]) *)
 | CTool (ops : list tbop).
 
 Definition check (c : case) : bool :=
@@ -159,14 +179,14 @@ Definition check (c : case) : bool :=
          nothing *)
       match describe (h0, roots) with
       | Some (d, _) => Bool.eqb (deep_okb h0) wf && closedb h0 && forallb (insideb h0) roots &&
-                       desc_eqb d (h0, roots) && run_steps (h0, roots) steps
+                       desc_eqb d (h0, roots) && run_steps (h0, roots) (h0, roots) steps
       | None => false
       end
   | CFresh h root obs =>
       match pickle_fresh h root with
       | Some (h', v') =>
           match describe (h', [v']) with
-          | Some (d, _) => desc_eqb d obs
+          | Some (d, _) => desc_eqb d (match obs with Some o => o | None => (h, [root]) end)
           | None => false
           end
       | None => false
@@ -186,4 +206,8 @@ Definition O (k : nat) (c : value) (items : list value) (attrs : list (nat * val
          | 7 => KFit | 8 => KCFit | 9 => KPyList | 10 => KPyDict | 11 => KPySet | _ => KBuf
          end) c items attrs.
 Definition D (h : heap) (vs : list value) : desc := (h, vs).
-Definition S_ (o : op) (d : desc) : op * desc := (o, d).
+Definition S_ (o : op) (d : desc) : op * option dsc := (o, Some (DFull d)).
+Definition S0 (o : op) : op * option dsc := (o, None).
+Definition Sd (o : op) (n : nat) (ch : list (nat * obj)) (app : list obj) (roots : list value) : op * option dsc :=
+  (o, Some (DDelta n ch app roots)).
+Definition C (k : nat) (o : obj) : nat * obj := (k, o).
